@@ -182,10 +182,10 @@ theorem foldAppends_shaped : ∀ (rs : List Rule) (seen : List (List Char)) (out
 preamble nor in any attachment — for every preamble of well-shaped rules, every attachment list,
 every fuel.  (With the theorems of `Props/C13`: no other preamble rule is touched, and the error
 cases are errors.) -/
-theorem resolve_noRef (fuel : Nat) (pre : List Rule) (att : List (List Char)) (pre' : List Rule)
-    (att' : List (List Char)) (hs : ∀ r ∈ pre, VarShaped r) (h : resolve fuel pre att = .ok (pre', att')) :
+theorem resolveCore_noRef (fuel : Nat) (pre : List Rule) (att : List (List Char)) (pre' : List Rule)
+    (att' : List (List Char)) (hs : ∀ r ∈ pre, VarShaped r) (h : resolveCore fuel pre att = .ok (pre', att')) :
     VarsResolved pre' ∧ ∀ a ∈ att', NoRef a := by
-  unfold resolve at h
+  unfold resolveCore at h
   simp only [bind, Except.bind] at h
   split at h
   · cases h
@@ -299,9 +299,9 @@ theorem resolveVars_fuel_mono (fuel : Nat) : ∀ (rs done res : List Rule),
 
 /-- **The answer of `Resolve` does not depend on the fuel** once it is enough: the fuel is an artefact of
 the model (the Go function recurses without a bound), not part of the behaviour. -/
-theorem resolve_fuel_mono (fuel : Nat) (pre : List Rule) (att : List (List Char)) (res : List Rule × List (List Char))
-    (h : resolve fuel pre att = .ok res) : resolve (fuel + 1) pre att = .ok res := by
-  unfold resolve at h ⊢
+theorem resolveCore_fuel_mono (fuel : Nat) (pre : List Rule) (att : List (List Char)) (res : List Rule × List (List Char))
+    (h : resolveCore fuel pre att = .ok res) : resolveCore (fuel + 1) pre att = .ok res := by
+  unfold resolveCore at h ⊢
   simp only [bind, Except.bind] at h ⊢
   split at h
   · cases h
@@ -316,5 +316,32 @@ theorem resolve_fuel_mono (fuel : Nat) (pre : List Rule) (att : List (List Char)
       · rename_i a2 ha
         rw [resolveList_fuel_mono p2 fuel att a2 ha]
         exact h
+
+/-- a successful `Resolve` is a successful run of its core on a preamble without a cycle -/
+theorem resolve_ok {fuel : Nat} {pre : List Rule} {att : List (List Char)} {res : List Rule × List (List Char)}
+    (h : resolve fuel pre att = .ok res) : resolveCore fuel pre att = .ok res := by
+  unfold resolve at h
+  split at h
+  · cases h
+  · split at h
+    · cases h
+    · exact h
+
+theorem resolve_noRef (fuel : Nat) (pre : List Rule) (att : List (List Char)) (pre' : List Rule)
+    (att' : List (List Char)) (hs : ∀ r ∈ pre, VarShaped r) (h : resolve fuel pre att = .ok (pre', att')) :
+    VarsResolved pre' ∧ ∀ a ∈ att', NoRef a := resolveCore_noRef fuel pre att pre' att' hs (resolve_ok h)
+
+theorem resolve_fuel_mono (fuel : Nat) (pre : List Rule) (att : List (List Char)) (res : List Rule × List (List Char))
+    (h : resolve fuel pre att = .ok res) : resolve (fuel + 1) pre att = .ok res := by
+  have hc := resolveCore_fuel_mono fuel pre att res (resolve_ok h)
+  unfold resolve at h ⊢
+  split at h
+  · cases h
+  · next folded hf =>
+    split at h
+    · cases h
+    · next hcy =>
+      simp only [hcy, Bool.false_eq_true, if_false]
+      exact hc
 
 end Aa
